@@ -11,6 +11,8 @@ Class IR (JSON-able):
 """
 from hypothesis import strategies as st
 
+from .uni import chance, irange, pick
+
 # type key -> (pyx declaration type, value literals)
 TYPES = {
     "char": ("char", ["0", "1", "-128", "127"]),
@@ -116,47 +118,47 @@ def attr_list(draw, prefix, n, allow_special):
     out = []
     for i in range(n):
         pool = PLAIN
-        if allow_special and draw(st.sampled_from(range(100))) < 4:
+        if allow_special and chance(draw, 0.04):
             pool = ["struct", "ptr"]
-        t = draw(st.sampled_from(pool))
+        t = pick(draw, pool)
         out.append({"name": "%s%d" % (prefix, i), "type": t,
-                    "vis": draw(st.sampled_from(["public", "public", "readonly", "private"]))})
+                    "vis": pick(draw, ["public", "public", "readonly", "private"])})
     return out
 
 
 @st.composite
 def pickle_class(draw):
-    nlev = draw(st.sampled_from([1, 1, 2]))
+    nlev = pick(draw, [1, 1, 2])
     levels = []
     for lv in range(nlev):
-        n = draw(st.integers(0 if nlev == 2 else 1, 4))
+        n = irange(draw, 0 if nlev == 2 else 1, 4)
         # names interleave across levels so that sorting by name mixes inherited and own members
-        levels.append(draw(attr_list("ab"[lv] if draw(st.booleans()) else "ba"[lv], n, True)))
+        levels.append(draw(attr_list("ab"[lv] if chance(draw, 0.5) else "ba"[lv], n, True)))
     if nlev == 2 and levels[0] and levels[1] and levels[0][0]["name"][0] == levels[1][0]["name"][0]:
         for a in levels[1]:
             a["name"] = "c" + a["name"][1:]
-    c = {"name": "K0", "levels": levels, "dict": draw(st.sampled_from(range(100))) < 20,
-         "cinit": draw(st.sampled_from(range(100))) < 5,
-         "auto_pickle": draw(st.sampled_from([None, None, None, None, True, True, False])),
-         "pysub": draw(st.sampled_from(range(100))) < 35, "variant": None}
+    c = {"name": "K0", "levels": levels, "dict": chance(draw, 0.12),
+         "cinit": chance(draw, 0.01),
+         "auto_pickle": pick(draw, [None, None, None, None, True, True, False]),
+         "pysub": chance(draw, 0.35), "variant": None}
     flat = all_attrs(c)
     special = any(a["type"] in ("struct", "ptr") for a in flat)
-    if flat and not special and not c["cinit"] and c["auto_pickle"] is not False and draw(st.sampled_from(range(100))) < 50:
-        kind = draw(st.sampled_from(["add", "remove", "rename", "reorder", "retype"]))
+    if flat and not special and not c["cinit"] and c["auto_pickle"] is not False and chance(draw, 0.5):
+        kind = pick(draw, ["add", "remove", "rename", "reorder", "retype"])
         attrs = [dict(a) for a in flat]
         if kind == "add":
-            attrs.insert(draw(st.integers(0, len(attrs))), {"name": "zz", "type": "int", "vis": "public"})
+            attrs.insert(irange(draw, 0, len(attrs)), {"name": "zz", "type": "int", "vis": "public"})
         elif kind == "remove":
             if len(attrs) < 2:
                 kind = "rename"
             else:
-                del attrs[draw(st.integers(0, len(attrs) - 1))]
+                del attrs[irange(draw, 0, len(attrs) - 1)]
         if kind == "rename":
-            attrs[draw(st.integers(0, len(attrs) - 1))]["name"] += "r"
+            attrs[irange(draw, 0, len(attrs) - 1)]["name"] += "r"
         elif kind == "reorder":
             attrs = list(reversed(attrs))
         elif kind == "retype":
-            a = attrs[draw(st.integers(0, len(attrs) - 1))]
+            a = attrs[irange(draw, 0, len(attrs) - 1)]
             a["type"] = RETYPE.get(a["type"], "object")
         c["variant"] = {"kind": kind, "attrs": attrs}
     return c
@@ -250,7 +252,7 @@ def render_module(classes, pyx):
 def value_sets(draw, c, n=2):
     sets = []
     for _ in range(n):
-        sets.append([draw(st.sampled_from(TYPES[a["type"]][1])) for a in all_attrs(c) if a["type"] != "ptr"])
+        sets.append([pick(draw, TYPES[a["type"]][1]) for a in all_attrs(c) if a["type"] != "ptr"])
     return sets
 
 
